@@ -307,7 +307,7 @@ pub fn check(tier: Tier) -> i32 {
     cleanup_process_scratch();
     ctx.finish(
         "exploration",
-        "proptest-generated scenarios (hostile file/dir names, hard links, priorities, -n, isolate) x `move DIR` with DIR outside the tree, inside the scanned tree or on the other device (tmpfs -> ext4: rename fails with EXDEV, copy fallback), absolute or cwd-relative or spelled `shelf/../dups` through a symlink in the working directory, pre-populated with obstacles derived from a dry run: a colliding regular file, a directory at the destination, a file where a parent directory is needed, a dangling symlink; in a third of the cases the k-th (k = 1..24) mutating libc call on the tree / DIR is made to fail with EIO, ENOSPC, EPERM or EINVAL by the LD_PRELOAD interposer (single worker thread). Oracle (inventories before/after): everything that existed under DIR is untouched; every vanished source has its bytes at DIR/<absolute source path>, which did not exist before; no file altered in place; #new regular files under DIR == #moved; intended-but-unmoved sources are untouched and a warning is logged; without obstacles and without an injected failure every intended file is moved; after an injected failure the only relaxation is that an incomplete copy may remain under DIR. Non-trivial = an obstacle was in place, a failure was actually injected, or the cross-device copy fallback moved a file.",
+        "proptest-generated scenarios (hostile file/dir names, hard links, priorities, -n, isolate) x `move DIR` with DIR outside the tree, inside the scanned tree or on the other device (tmpfs -> ext4: rename fails with EXDEV, copy fallback), absolute, relative to the tree root, relative to the parent of the tree root with `fclones move` started there (the report's base directory is the tree root) or spelled `shelf/../dups` through a symlink in the working directory, pre-populated with obstacles derived from a dry run: a colliding regular file, a directory at the destination, a file where a parent directory is needed, a dangling symlink; in a third of the cases the k-th (k = 1..24) mutating libc call on the tree / DIR is made to fail with EIO, ENOSPC, EPERM or EINVAL by the LD_PRELOAD interposer (single worker thread). Oracle (inventories before/after): everything that existed under DIR is untouched; every vanished source has its bytes at DIR/<absolute source path>, which did not exist before; no file altered in place; #new regular files under DIR == #moved; intended-but-unmoved sources are untouched and a warning is logged; without obstacles and without an injected failure every intended file is moved; after an injected failure the only relaxation is that an incomplete copy may remain under DIR. Non-trivial = an obstacle was in place, a failure was actually injected, or the cross-device copy fallback moved a file.",
         &["intention of the command is learnt from a dry run of the same command (C11 checks dry-run fidelity)", "failures are injected at libc level, one per run; every position of every call sequence is enumerated by C05"],
     )
 }
